@@ -50,6 +50,8 @@ def parseCmd (w : String) : Option Cmd :=
   | ["sd", q, t] => some (.seed (nat! q) (nat! t))
   | ["rl"] => some .release
   | ["ln"] => some .loadNum
+  | ["mx", c, v] => some (.maxC (nat! c) (int! v))
+  | ["ml", c] => some (.loadMx (nat! c))
   | _ => none
 
 def showRes : Res → String
@@ -68,11 +70,14 @@ def showRes : Res → String
   | .seeded q t => s!"SD{q}.{t}"
   | .released p n => s!"R{p}.{n}"
   | .num v => s!"N{v}"
+  | .maxed c => s!"MX{c}"
+  | .mxval c v => s!"W{c}.{v}"
   | .skip => "K"
 
 def pcName : PC → String
   | .idle => "idle" | .getCheck _ => "getCheck" | .getInc _ => "getInc" | .getCas _ _ => "getCas"
-  | .getCount _ _ => "getCount" | .getMax _ _ _ => "getMax" | .getTotal _ _ => "getTotal"
+  | .getCount _ _ => "getCount" | .getMax _ _ _ => "getMax" | .getMaxCas _ _ _ _ => "getMaxCas"
+  | .cMax _ _ => "cMax" | .cMaxCas _ _ _ => "cMaxCas" | .cLoadMx _ => "cLoadMx" | .getTotal _ _ => "getTotal"
   | .apFill _ _ => "apFill" | .apPlace _ _ => "apPlace" | .crashed _ => "crashed"
   | .freeReset _ => "freeReset" | .freeUnlock _ => "freeUnlock" | .freeDec _ => "freeDec"
   | .lockSpin _ => "lockSpin" | .lockTry _ => "lockTry" | .unlockL _ => "unlockL"
@@ -129,15 +134,31 @@ def parseScen (ws : List String) : Option Scen :=
                         children := fun t => (hydro.getD t ([], 0)).1, queueOf := fun t => (hydro.getD t ([], 0)).2,
                         nq := nat! nq },
                nlocks := nat! nl, nqueues := nat! nq, nctr := nat! nc, ntasks := table.length, progs := progs, mode := m,
-               sched := if m = "X" then arg.toList.map (fun c => c.toNat - '0'.toNat) else [] }
+               sched := if m = "X" || m = "XI" then arg.toList.map (fun c => c.toNat - '0'.toNat) else [] }
       | _ => none
     | _ => none
+
+/-- the real thread runs on without a yield: plain code, and — as long as AtomicValue::max has
+no yield inside its loop (hook H1 fires once at its entry) — the compare-exchange of `max` right
+after its load -/
+def runsOn (inner : Bool) (th : Thread) : Bool :=
+  th.silent || (!inner && match th.pc with
+    | .getMaxCas _ _ _ _ => true
+    | .cMaxCas _ _ _ => true
+    | _ => false)
+
+def settleD (cfg : Cfg) (inner : Bool) : Nat → State → Nat → State
+  | 0, s, _ => s
+  | fuel + 1, s, tid =>
+    match s.threads[tid]? with
+    | some th => if runsOn inner th then settleD cfg inner fuel (step cfg s tid) tid else s
+    | none => s
 
 def allFinished (s : State) : Bool := s.threads.all Thread.finished
 
 /-- one schedule entry; returns the new state, the results it produced (oldest first) and the
 transition tags -/
-def entry (cfg : Cfg) (s : State) (tid : Nat) : State × List String × List String :=
+def entry (cfg : Cfg) (inner : Bool) (s : State) (tid : Nat) : State × List String × List String :=
   match s.threads[tid]? with
   | none => (s, [], [])
   | some th =>
@@ -146,17 +167,17 @@ def entry (cfg : Cfg) (s : State) (tid : Nat) : State × List String × List Str
     let s1 := step cfg s tid
     let pc1 := (s1.threads[tid]?.map (·.pc)).getD .idle
     let tag := s!"{pcName th.pc}>{pcName pc1}"
-    let s2 := settle cfg 100000 s1 tid
+    let s2 := settleD cfg inner 100000 s1 tid
     let n0 := th.res.length
     let th2 := (s2.threads[tid]?).getD th
     let newRes := (th2.res.take (th2.res.length - n0)).reverse
     let tag2 := if pcName pc1 != pcName th2.pc then [s!"{pcName pc1}>>{pcName th2.pc}"] else []
     (s2, newRes.map (fun r => s!"{tid}:{showRes r}"), tag :: tag2)
 
-def settleAll (cfg : Cfg) (s : State) : State × List String :=
+def settleAll (cfg : Cfg) (inner : Bool) (s : State) : State × List String :=
   (List.range s.threads.length).foldl (fun (p : State × List String) tid =>
     let th0 := (p.1.threads[tid]?).getD {}
-    let s' := settle cfg 100000 p.1 tid
+    let s' := settleD cfg inner 100000 p.1 tid
     let th1 := (s'.threads[tid]?).getD {}
     let newRes := (th1.res.take (th1.res.length - th0.res.length)).reverse
     (s', p.2 ++ newRes.map (fun r => s!"{tid}:{showRes r}"))) (s, [])
@@ -173,7 +194,7 @@ def finalDump (sc : Scen) (s : State) : String :=
   s!"taken={m.taken} cur={m.cur} max={m.maxTaken} tot={m.totalTaken} flags={bits m.flags sc.cfg.size} " ++
   s!"cnt={commaNat ((List.range sc.cfg.size).map m.count)} locks={bits (fun k => m.locks (.dep k)) sc.nlocks} " ++
   s!"ql={bits (fun q => m.locks (.queue q)) sc.nqueues} {qs} ctr={commaInt ((List.range sc.nctr).map m.ctr)} " ++
-  s!"num={m.num} unf={commaInt ((List.range sc.ntasks).map m.unf)}"
+  s!"num={m.num} unf={commaInt ((List.range sc.ntasks).map m.unf)} mx={commaInt ((List.range sc.nctr).map m.mx)}"
 
 def insertSorted (x : Nat) : List Nat → List Nat
   | [] => [x]
@@ -186,19 +207,21 @@ def addTags (acc : List String) (ts : List String) : List String :=
 def runScen (sc : Scen) : String :=
   let cfg := sc.cfg
   let n := sc.progs.length
-  let (s0, r0) := settleAll cfg (init sc.progs)
-  let nextra := if sc.mode = "X" then 600 else 2000000
-  let sched := if sc.mode = "X" then sc.sched else []
+  let inner := sc.mode = "XI"
+  let isX := sc.mode = "X" || sc.mode = "XI"
+  let (s0, r0) := settleAll cfg inner (init sc.progs)
+  let nextra := if isX then 600 else 2000000
+  let sched := if isX then sc.sched else []
   -- results are accumulated newest first
   let (s1, out, tags) := sched.foldl (fun (p : State × List String × List String) tid =>
-    let (s', r, t) := entry cfg p.1 tid
+    let (s', r, t) := entry cfg inner p.1 tid
     (s', r.reverse ++ p.2.1, addTags p.2.2 t)) (s0, r0.reverse, [])
   let rec loop (fuel e : Nat) (p : State × List String × List String) : State × List String × List String :=
     match fuel with
     | 0 => p
     | fuel + 1 =>
       if n = 0 || allFinished p.1 then p else
-      let (s', r, t) := entry cfg p.1 (e % n)
+      let (s', r, t) := entry cfg inner p.1 (e % n)
       loop fuel (e + 1) (s', r.reverse ++ p.2.1, addTags p.2.2 t)
   let (s2, outR, tagsR) := loop nextra 0 (s1, out, tags)
   let out2 := outR.reverse
@@ -207,7 +230,7 @@ def runScen (sc : Scen) : String :=
   let crashed := (List.range n).filter fun tid =>
     match s2.threads[tid]?.map (·.pc) with | some (.crashed _) => true | _ => false
   let tagStr := ",".intercalate (tags2.filter (· ≠ "skip-finished"))
-  if sc.mode = "X" then
+  if isX then
     let st := (if stuck.isEmpty then "" else " STUCK " ++ commaNat stuck) ++
               (if crashed.isEmpty then "" else " NOBUF " ++ commaNat crashed)
     s!"{" ".intercalate out2} | {finalDump sc s2}{st} #{tagStr}"
@@ -216,7 +239,8 @@ def runScen (sc : Scen) : String :=
     let m := s2.mem
     let qs := " ".intercalate ((List.range sc.nqueues).map fun q => s!"q{q}={commaNat (sortNat (m.items q))}")
     s!"free taken={m.taken} nflags={((List.range cfg.size).filter m.flags).length} {qs} " ++
-    s!"ctr={commaInt ((List.range sc.nctr).map m.ctr)} lf={commaInt ((List.range sc.nctr).map fun c => m.ctr (c + 100))}" ++
+    s!"ctr={commaInt ((List.range sc.nctr).map m.ctr)} lf={commaInt ((List.range sc.nctr).map fun c => m.ctr (c + 100))} " ++
+    s!"mx={commaInt ((List.range sc.nctr).map m.mx)}" ++
     (if stuck.isEmpty then "" else " STUCK") ++ s!" #{tagStr}"
 
 def stepLine (_ : Unit) (ws : List String) : Unit × String :=
